@@ -7,7 +7,19 @@ NOTES = ("All checks: bin/check <ID> --tier quick|thorough; exit 0 held / 1 VIOL
 
 NOT_CLAIMED = {}
 
+_C20 = {
+    "text": ("Syntax.tla holds the documented precedence/associativity table, the semicolon-insertion rule and a number-literal automaton. TLC "
+             "enumerates every expression tree of depth <= 2 over all operators (minimal vs full parenthesisation), every token class x gap "
+             "kind, and every spelling over the literal alphabet up to the length bound; the real parser/scanner must agree on each, literal "
+             "values are compared with Go's own scanner/constant evaluation (three-way agreement), escapes with strconv, and the printed form "
+             "of generated programs must re-parse and compile to the same instructions and constants."),
+    "design_ref": "DESIGN.md 5.10, 8/C20",
+    "note": "Trusted: TLC; Go's scanner, go/constant and strconv as the literal-syntax oracle named by the property.",
+    "technique": "TLA+ grammar tables/automata enumerated by TLC, every case replayed into the real scanner and parser",
+}
+
 CHECKS = {
+    "C20": _C20,
     "C01": {
         "text": ("TengoSem.tla/TengoValues.tla are an executable TLA+ reference semantics of the documented language (names, lexical "
                  "environments, cells, heap with slice aliasing, operator/builtin tables). TLC evaluates every generated program, exploring "
